@@ -38,7 +38,7 @@ const (
 
 type job struct {
 	Target  string   `json:"target"`
-	Kind    string   `json:"kind"` // "seeds" | "mut" | "keyed" | "files"
+	Kind    string   `json:"kind"` // "seeds" | "mut" | "keyed" | "enc" | "files"
 	From    int      `json:"from"`
 	To      int      `json:"to"`
 	Seed    int64    `json:"seed"`
@@ -70,6 +70,7 @@ type sumRec struct {
 	Evals       int64            `json:"evals"`
 	Classes     map[string]int64 `json:"classes"`
 	Skipped     map[string]int64 `json:"skipped"`
+	BOM         map[string]int64 `json:"bom"`     // inputs starting with a UTF-8/UTF-16 byte order mark, by mark and length parity
 	Hashes      string           `json:"hashes"`  // 8-byte prefixes of sha256(target‖input)
 	Repeats     map[string]int64 `json:"repeats"` // violation key -> further inputs with the same key
 	ScryptCalls int64            `json:"scrypt_calls"`
@@ -117,6 +118,8 @@ func (j *job) input(t *target, i int) []byte {
 		return mutation(j.Seed, t, i)
 	case "keyed":
 		return keyedGrid(i)
+	case "enc":
+		return encInput(t, i)
 	case "files":
 		b, err := os.ReadFile(j.Files[i])
 		if err != nil {
@@ -297,7 +300,7 @@ func childMain(spec string) {
 	if j.Kind != "files" {
 		loadSeeds()
 	}
-	sum := &sumRec{Classes: map[string]int64{}, Skipped: map[string]int64{}, Repeats: map[string]int64{}}
+	sum := &sumRec{Classes: map[string]int64{}, Skipped: map[string]int64{}, Repeats: map[string]int64{}, BOM: map[string]int64{}}
 	if !j.NoLimit {
 		head := uint64(headroomMiB)
 		if s := os.Getenv("VERIF_C14_HEADROOM_MB"); s != "" {
@@ -383,6 +386,9 @@ func childMain(spec string) {
 				}
 				if len(in) > sum.MaxLen {
 					sum.MaxLen = len(in)
+				}
+				if bc := bomCell(in); bc != "" {
+					sum.BOM[bc]++
 				}
 				sum.ScryptCalls += int64(o.scrypt)
 				if o.skipped != "" {
